@@ -47,7 +47,6 @@ Proof.
   intros HT HH NS p Hp. unfold sat_rec, dispatch_data in *.
   destruct (data_token (d_tok d)) as [[th tk]|].
   - destruct (th =? k) eqn:E; [|reflexivity]. apply N.eqb_eq in E. subst th. exfalso.
-    destruct (k =? T) eqn:E1; [apply N.eqb_eq in E1; lia|].
     assert (E2 : (k <? T) = true) by (apply N.ltb_lt; exact HT). rewrite E2 in NS. cbn in NS. rewrite N.eqb_refl in NS. discriminate.
   - cbn [fst] in NS. destruct (is_prefix (p_name p) (d_name d)) eqn:P; [|reflexivity]. exfalso.
     pose proof (proj1 (is_prefix_firstn _ _) P) as E. pose proof (is_prefix_length _ _ P) as L.
